@@ -61,7 +61,20 @@ int main(int argc, char ** argv)
         reused.set_decay_category(bxdecay0::decay0_generator::DECAY_CATEGORY_DBD);
         reused.set_decay_isotope(name);
         reused.set_decay_dbd_level(level);
-        reused.set_decay_dbd_mode((bxdecay0::dbd_mode_type)mode);
+        // the mode goes in by its label, over a valid mode set just before: a known label must select its own mode, an unknown one
+        // (requests with a mode outside 1..24) must leave the generator without a mode, not with the earlier one
+        reused.set_decay_dbd_mode(bxdecay0::DBDMODE_1);
+        {
+          std::string label = "no-such-mode-" + std::to_string(mode);
+          const auto & modes = bxdecay0::dbd_modes();
+          auto it = modes.find((bxdecay0::dbd_mode_type)mode);
+          if (it != modes.end()) label = it->second.unique_label;
+          try {
+            reused.set_decay_dbd_mode_by_label(label);
+          } catch (std::exception &) {
+            reused.set_decay_dbd_mode(bxdecay0::DBDMODE_UNDEF); // a setter that refuses an unknown label outright is fine too
+          }
+        }
         if (wkind) reused.set_decay_dbd_esum_range(e1, e2);
         Tape t2(seed, (uint64_t)idx);
         reused.initialize(t2);
